@@ -493,35 +493,50 @@ func c18Shapes(c *rig.Ctx) {
 			return ge.ptrTo(elT)
 		}
 		var shapes []c18Shape
-		add := func(s c18Shape) { shapes = append(shapes, s) }
-		add(c18Shape{name: "read", build: func() model.CmdType { return fd.ReadCmdType(nil, nil) }})
+		// every second payload hands the omitted filter parts over as typed nil pointers inside the `any`
+		// parameters (what a wrapper with typed optional parameters does) instead of untyped nils
+		typedNil := rep%2 == 1
+		var nS, nE any
+		if typedNil && selT != nil {
+			nS = reflect.Zero(reflect.PtrTo(selT)).Interface()
+		}
+		if typedNil && elT != nil {
+			nE = reflect.Zero(reflect.PtrTo(elT)).Interface()
+		}
+		add := func(s c18Shape) {
+			if typedNil {
+				s.name += "~typed-nil"
+			}
+			shapes = append(shapes, s)
+		}
+		add(c18Shape{name: "read", build: func() model.CmdType { return fd.ReadCmdType(nS, nE) }})
 		if s := mkSel(); s != nil {
-			add(c18Shape{name: "read+selector", build: func() model.CmdType { return fd.ReadCmdType(s, nil) }, wantPartial: true, sel: s})
+			add(c18Shape{name: "read+selector", build: func() model.CmdType { return fd.ReadCmdType(s, nE) }, wantPartial: true, sel: s})
 		}
 		if e := mkEl(); e != nil {
-			add(c18Shape{name: "read+elements", build: func() model.CmdType { return fd.ReadCmdType(nil, e) }, wantPartial: true, el: e})
+			add(c18Shape{name: "read+elements", build: func() model.CmdType { return fd.ReadCmdType(nS, e) }, wantPartial: true, el: e})
 		}
 		if s, e := mkSel(), mkEl(); s != nil && e != nil {
 			add(c18Shape{name: "read+selector+elements", build: func() model.CmdType { return fd.ReadCmdType(s, e) }, wantPartial: true, sel: s, el: e})
 		}
 		add(c18Shape{name: "reply", build: func() model.CmdType { return fd.ReplyCmdType(false) }, payload: true})
 		add(c18Shape{name: "reply-partial", build: func() model.CmdType { return fd.ReplyCmdType(true) }, payload: true, wantPartial: true})
-		add(c18Shape{name: "notify-full", build: func() model.CmdType { return fd.NotifyOrWriteCmdType(nil, nil, false, nil) }, payload: true})
-		add(c18Shape{name: "notify-partial", build: func() model.CmdType { return fd.NotifyOrWriteCmdType(nil, nil, true, nil) }, payload: true, wantPartial: true})
+		add(c18Shape{name: "notify-full", build: func() model.CmdType { return fd.NotifyOrWriteCmdType(nS, nS, false, nE) }, payload: true})
+		add(c18Shape{name: "notify-partial", build: func() model.CmdType { return fd.NotifyOrWriteCmdType(nS, nS, true, nE) }, payload: true, wantPartial: true})
 		if s := mkSel(); s != nil {
-			add(c18Shape{name: "notify-partial+selector", build: func() model.CmdType { return fd.NotifyOrWriteCmdType(nil, s, false, nil) }, payload: true, wantPartial: true, sel: s})
+			add(c18Shape{name: "notify-partial+selector", build: func() model.CmdType { return fd.NotifyOrWriteCmdType(nS, s, false, nE) }, payload: true, wantPartial: true, sel: s})
 		}
 		if s := mkSel(); s != nil {
-			add(c18Shape{name: "notify-delete+selector", build: func() model.CmdType { return fd.NotifyOrWriteCmdType(s, nil, false, nil) }, payload: true, wantDelete: true, delSel: s})
+			add(c18Shape{name: "notify-delete+selector", build: func() model.CmdType { return fd.NotifyOrWriteCmdType(s, nS, false, nE) }, payload: true, wantDelete: true, delSel: s})
 		}
 		if e := mkEl(); e != nil {
-			add(c18Shape{name: "notify-delete+elements", build: func() model.CmdType { return fd.NotifyOrWriteCmdType(nil, nil, false, e) }, payload: true, wantDelete: true, delEl: e})
+			add(c18Shape{name: "notify-delete+elements", build: func() model.CmdType { return fd.NotifyOrWriteCmdType(nS, nS, false, e) }, payload: true, wantDelete: true, delEl: e})
 		}
 		if s, e := mkSel(), mkEl(); s != nil && e != nil {
-			add(c18Shape{name: "notify-delete+selector+elements", build: func() model.CmdType { return fd.NotifyOrWriteCmdType(s, nil, false, e) }, payload: true, wantDelete: true, delSel: s, delEl: e})
+			add(c18Shape{name: "notify-delete+selector+elements", build: func() model.CmdType { return fd.NotifyOrWriteCmdType(s, nS, false, e) }, payload: true, wantDelete: true, delSel: s, delEl: e})
 		}
 		if s, s2 := mkSel(), mkSel(); s != nil {
-			add(c18Shape{name: "notify-delete+selector,partial+selector", build: func() model.CmdType { return fd.NotifyOrWriteCmdType(s, s2, false, nil) }, payload: true, wantDelete: true, wantPartial: true, delSel: s, sel: s2})
+			add(c18Shape{name: "notify-delete+selector,partial+selector", build: func() model.CmdType { return fd.NotifyOrWriteCmdType(s, s2, false, nE) }, payload: true, wantDelete: true, wantPartial: true, delSel: s, sel: s2})
 		}
 		expected += len(shapes)
 		for _, s := range shapes {
